@@ -26,8 +26,21 @@ SumExpr(a, b) == [x |-> "add", a |-> a, b |-> b]
 SeedSums == { SumExpr(DictOf(<<DKey(KA, SInt05, FALSE), DKey(KB, SStrAlpha, FALSE)>>), DictOf(<<DKey(KC, SInt05, FALSE)>>)),
               SumExpr(DictOf(<<DKey(KB, SStrAlpha, FALSE), DKey(VEllipsis, VEllipsis, FALSE)>>),
                       DictOf(<<DKey(KA, SInt05, FALSE), DKey(KC, SFloat01, FALSE)>>)) }
+\* ... or of a helper: [x |-> "make_required", a, b = a] is make_required(a) (all keys, given as the
+\* default *set* of keys); [x |-> "subst", a, b |-> schema pinned to the value] is a % value with a
+\* partial value (two keys mentioned, each left partly open)
+ReqExpr(a) == [x |-> "make_required", a |-> a, b |-> a]
+SubstExpr(a, v) == [x |-> "subst", a |-> a, b |-> v]
+TwoOpt == DictOf(<<DKey(KA, SInt05, TRUE), DKey(KB, SStrAlpha, TRUE), DKey(KC, SFloat01, FALSE)>>)
+Inner == DictOf(<<DKey(KA, SInt05, FALSE), DKey(KB, SStrAlpha, FALSE)>>)
+Outer == DictOf(<<DKey(KA, Inner, FALSE), DKey(KB, Inner, FALSE), DKey(KC, SInt05, FALSE)>>)
+PartialV == VDict(<<KV(KB, VDict(<<KV(KA, VInt(1))>>)), KV(KA, VDict(<<KV(KA, VInt(2))>>))>>)
+SeedHelpers == {ReqExpr(TwoOpt), SubstExpr(Outer, PartialV)}
 IsSum(el) == "x" \in DOMAIN el
-SchemaOf(el) == IF IsSum(el) THEN Add(el.a, el.b).s ELSE el
+SchemaOf(el) == IF ~IsSum(el) THEN el
+                ELSE IF el.x = "add" THEN Add(el.a, el.b).s
+                ELSE IF el.x = "make_required" THEN MakeRequired(el.a, NoneOpt).s
+                ELSE Subst(el.a, el.b).s
 
 SeedSchemas ==
   { BareBool, BareInt, SInt05, BareFloat, SFloat01,
